@@ -31,6 +31,7 @@ type elObj struct {
 	lastAckRev uint64
 	inDemote   int
 	termToken  string
+	lateAck    bool
 }
 
 // Inst is one participant (InstanceID) of the plan.
